@@ -25,6 +25,7 @@ NumOk(e) == \A i \in 1..Len(e.res) : e.res[i] >= -e.tol /\ e.res[i] <= e.tol
 Ok(e) == CASE e.k = "props" -> PropsOk(e) [] e.k = "bbox" -> BBoxOk(e) [] e.k = "layers" -> LayersOk(e)
            [] e.k = "tilefc" -> TileFcOk(e) [] e.k = "hex" -> HexOk(e) [] e.k = "ringclosed" -> RingClosedOk(e)
            [] e.k = "num" -> NumOk(e)
+           [] e.k = "edge" -> e.outcome = EdgeOutcome(e.what)
            \* helper types: same JSON / BSON bytes as the Geometry wrapper, decode back to the same value; Point accessors
            [] e.k = "helpers" -> e.json = 1 /\ e.bson = 1 /\ e.back = 1 /\ e.backb = 1 /\ e.lonlat = 1
            [] OTHER -> FALSE
